@@ -794,7 +794,12 @@ def _fold_sites(fn: FuncInfo) -> List[Tuple[str, Set[Tuple[str, Tuple]], ast.AST
         if v is None:
             continue
         # `return text, code`: each component of a returned tuple is a value of its own
-        for v_ in (v.elts if isinstance(n, ast.Return) and isinstance(v, ast.Tuple) else [v]):
+        comps = [v]
+        if isinstance(n, ast.Return) and isinstance(v, ast.Tuple):
+            comps = list(v.elts)
+        elif isinstance(n, ast.Return) and isinstance(v, ast.Call) and isinstance(v.func, ast.Name) and v.func.id[:1] in "_ABCDEFGHIJKLMNOPQRSTUVWXYZ" and v.func.id.lstrip("_")[:1].isupper():
+            comps = list(v.args) + [k.value for k in v.keywords]  # `return _Info(a, b, c)`: a record of the same components
+        for v_ in comps:
             m = fold_of(v_)
             if m is None:
                 continue
@@ -925,6 +930,16 @@ def _idpin(prog: Program, fi: FuncInfo, kf: FuncInfo, uses_id: List[ast.Call]) -
                         if isinstance(e, ast.Attribute) and isinstance(e.value, ast.Name) and e.value.id == me and e.attr == attr:
                             if isinstance(t, (ast.Tuple, ast.List)) and isinstance(v, (ast.Tuple, ast.List)) and len(v.elts) == len(elts):
                                 v = v.elts[idx]  # element-wise tuple assignment: this target receives this element
+                            # the cached result may be held in a local first: info = _make_crs(spec); self._crs = info.proj / = info
+                            base_ = v.value if isinstance(v, ast.Attribute) and isinstance(v.value, ast.Name) and v.attr != attr else v
+                            if isinstance(base_, ast.Name):
+                                ldefs = [a_.value for a_ in walk_own(g.node) if isinstance(a_, ast.Assign) and any(isinstance(t_, ast.Name) and t_.id == base_.id for t_ in a_.targets)]
+                                def _copy_of_pinned(d_: ast.AST) -> bool:
+                                    # a record built from another object's own pinned field: _Info(other._crs, other._str, ..)
+                                    return isinstance(d_, ast.Call) and bool(d_.args) and isinstance(d_.args[0], ast.Attribute) and d_.args[0].attr == attr
+                                cached_ = [d_ for d_ in ldefs if isinstance(d_, ast.Call) and not _copy_of_pinned(d_)]
+                                if ldefs and all(isinstance(d_, ast.Call) for d_ in ldefs) and cached_ and len({short(d_.func) for d_ in cached_}) == 1:
+                                    v = cached_[0]
                             cid = f"{g.qual}#IDPIN:{attr}<-{short(v, 40)}"
                             src_ok = False
                             why = ""
